@@ -42,14 +42,14 @@ Definition cancel_m (s : vstate) (id : nat) : vstate :=
        cache := cache s; handles := handles s |}
   end.
 
-(* doSet: remember the value only if nothing is remembered yet, then write *)
+(* doSet: remember the value only if nothing is remembered yet, then write; a mocker that is set again is live again *)
 Definition set_m (s : vstate) (id : nat) (x : Z) : vstate :=
   match get_m s id with
   | None => s
   | Some m =>
     let o := match m_origin m with Some o => Some o | None => Some (cells s (m_var m)) end in
     {| cells := upd (cells s) (m_var m) x;
-       mockers := set_nth id (mockers s) {| m_var := m_var m; m_origin := o; m_canceled := m_canceled m |};
+       mockers := set_nth id (mockers s) {| m_var := m_var m; m_origin := o; m_canceled := false |};
        cache := cache s; handles := handles s |}
   end.
 
